@@ -545,11 +545,11 @@ POOL = [
     (BasicRestartingNonMPI, {'max_restarts': 7}, ('max_restarts', 7), 95),
     (SpreadStepSizesBlockwiseNonMPI, {'overwrite_to_reach_Tend': False}, ('overwrite_to_reach_Tend', False), 100),
     (EstimateEmbeddedError, {'rel_error': True}, ('rel_error', True), -80),
+    (HotRod, {'HotRod_tol': 1e2}, ('HotRod_tol', 1e2), -40),  # inside the quick pool: its dependencies are subclasses of Adaptivity's
     (StoreUOld, {'control_order': 89}, ('control_order', 89), 90),
     (InterpolateBetweenRestarts, {'control_order': 51}, ('control_order', 51), 50),
     (StopAtNan, {'thresh': 1e10}, ('thresh', 1e10), 94),
     (StepSizeSlopeLimiter, {'dt_slope_max': 3.0}, ('dt_slope_max', 3.0), 91),
-    (HotRod, {'HotRod_tol': 1e2}, ('HotRod_tol', 1e2), -40),
 ]
 POOLNAMES = [p[0].__name__ for p in POOL]
 CALLBACKS = ('setup_status_variables', 'reset_status_variables', 'reset_buffers_nonMPI', 'pre_iteration_processing', 'post_iteration_processing', 'convergence_control', 'post_spread_processing', 'post_step_processing', 'prepare_next_block', 'prepare_next_block_nonMPI', 'post_run_processing')
@@ -570,12 +570,27 @@ def _cc_case(arg):
     d['level_params'].pop('restol')
     d['convergence_controllers'] = {m[0]: dict(m[1]) for m in members}
     cp['mssdc_jac'] = False
+    # every class asked for through add_convergence_controller (by the description or as a dependency of another
+    # controller) is recorded at the call, independently of what the library decides to do with the request
+    requested = []
+    _orig_add = controller_nonMPI.add_convergence_controller
+
+    def _recording_add(self, convergence_controller, description, params=None, allow_double=False):
+        requested.append(convergence_controller)
+        return _orig_add(self, convergence_controller, description, params=params, allow_double=allow_double)
+
+    controller_nonMPI.add_convergence_controller = _recording_add
     try:
         ctrl = controller_nonMPI(num_procs=P, controller_params=cp, description=d)
     except Exception as e:  # noqa: BLE001
         return [({**sig0, 'kind': 'valid_setup_rejected'}, {'when': 'construction', 'error': f'{type(e).__name__}: {e}'[:300]})]
+    finally:
+        del controller_nonMPI.add_convergence_controller  # the inherited method is visible again
     CC = ctrl.convergence_controllers
     types = [type(c) for c in CC]
+    for need in dict.fromkeys(requested):
+        if need not in types and need not in [m[0] for m in members]:
+            out.append(({**sig0, 'kind': 'requested_dependency_not_instantiated', 'class': need.__name__}, {'controllers': [t.__name__ for t in types], 'requested': [t.__name__ for t in requested]}))
     dup = sorted({t.__name__ for t in types if types.count(t) > 1})
     if dup:
         out.append(({**sig0, 'kind': 'instantiated_more_than_once', 'classes': dup}, {'controllers': [t.__name__ for t in types]}))
